@@ -114,6 +114,11 @@ def run(ctx):
     ctx.model_check("BrewDecide", "BrewDecide_asis.cfg", expect_violation="SafetyNet", note="AsIs_NoLabelConversion (repaired: F-07a)")
     ctx.model_check("BrewDecide", "BrewDecide_mut1.cfg", expect_violation="SafetyNet", note="seeded fault: never falls back")
     ctx.model_check("BrewDecide", "BrewDecide_mut2.cfg", expect_violation="SafetyNet", note="seeded fault: direction of the feature forgotten")
+    ctx.model_check("BrewModes", "BrewModes.cfg", note="mode logic of brew(): model / pre-trained model / list of models x ensemble x override x "
+                    "per-fold training outcome, 3 folds: untrained models never score, safety net on every path, lists never re-fitted")
+    ctx.model_check("BrewModes", "BrewModes_mut.cfg", expect_violation="UntrainedNeverScores", note="seeded fault: untrained fold models score their folds")
+    ctx.model_check("BrewModes", "BrewModes_reach.cfg", expect_violation="ZerosWithOverrideUnreachable",
+                    note="reachability: with override the zero scores of untrained fold models are handed back (documented consequence)")
     r = ctx.model_check("BrewDecide", "BrewDecide_cov.cfg", coverage=True, note="action coverage")
     ctx.require_actions(r, ["CountFeature", "CountPred", "Decide"])
     ctx.phase("generation")
